@@ -338,7 +338,9 @@ def family_entry_types():
     vec = lambda t: ('seq', ('vec',), t)
     s2 = ('tup', 'struct', [S('u8'), ('str', 1), ('opt', S('i64'))])
     s2t = ('tup', 'struct', [('wrap', 9, S('u8')), ('str', 1), ('opt', S('i64'))])   # member-wise fungible with s2
-    return {1: S('u32'), 2: ('str', 1), 3: vec(S('i16')), 4: s2, 5: ('opt', S('u8')), 6: S('f64'), '4t': s2t}
+    # ids above 2^32 differ from small ids only in their upper half (7 -> u16 would collide with a truncated (1 << 32) + 7)
+    return {1: S('u32'), 2: ('str', 1), 3: vec(S('i16')), 4: s2, 5: ('opt', S('u8')), 6: S('f64'), '4t': s2t,
+            (1 << 32) + 1: S('u16'), (1 << 32) + 3: ('str', 1), (1 << 45) + 2: S('i8')}
 
 
 def version_family():
@@ -361,6 +363,8 @@ def version_family():
         [a(1), (4, True, E['4t'])],
         [a(1), a(2), a(3), a(5)],
         [a(5), a(6), a(4), d(2)],
+        [a(1), a((1 << 32) + 1), a(3), a((1 << 45) + 2)],
+        [a((1 << 32) + 3), a(1), d((1 << 32) + 1), a(2)],
     ]
     tabs = [('tab', FAMILY_HASH, es) for es in V]
     out = list(tabs)
@@ -388,7 +392,7 @@ def fungible_family():
     out += [tup(S('i32'), S('f32')), ('tup', 'pair', [S('i32'), S('f32')]), tup(S('f32'), S('i32'))]
     out += [('map', False, S('i32'), ('str', 1)), ('map', True, S('i32'), ('str', 1))]
     out += [st(lbuf(2, 'u8', S('i32'))), st(lbuf(2, 'i64', S('i32'), False)), st(lbuf(3, 'u8', S('i32'))), st(vec(S('i32'))),
-            st(lbuf(2, 'u8', S('f32'))), st(vec(S('f32'))), st(arr(2, S('i32'))), st(lbuf(2, 'u16', w32))]
+            st(lbuf(2, 'u8', S('f32'))), st(vec(S('f32'))), st(arr(2, S('i32'))), st(lbuf(2, 'u16', w32)), st(lbuf(150, 'i32', S('f32')))]
     out += [('opt', S('i32')), ('opt', w32), ('res', 1, 'i32', S('i32')), ('res', 2, 'u8', S('i32')), ('res', 1, 'i32', w32),
             ('var', [S('i32'), ('str', 1)]), ('var', [w32, ('str', 1)]), ('var', [('str', 1), S('i32')]), S('i32'), w32, ('wrap', 3, w32)]
     # tables whose entries hold fungible structures: the entry's SIZE field is computed from the member's size, so a
@@ -455,6 +459,8 @@ def core_pool():
     # logical buffers: every size-member kind, integral and non-integral elements
     for i, sk in enumerate(ints):
         P.append(st(lbuf(5, sk, S(ints[(i + 2) % 8]), ca=(i % 2 == 0)), S('u8')))
+    # counts of 128 and more with a signed count member (the count travels as a 64-bit unsigned length)
+    P += [st(lbuf(200, 'i32', S('f32'))), st(lbuf(130, 'i16', ('str', 1), ca=False), S('u8'))]
     P += [st(lbuf(3, 'u8', ('str', 1))), st(lbuf(4, 'i32', S('f32'), ca=False)),
           st(S('i8'), lbuf(2, 'u64', vec(S('u8'))), lbuf(100, 'u8', S('u32')))]
     # wrappers
@@ -475,7 +481,9 @@ def core_pool():
     tw = ('tab', 9, [(1, True, ('str', 2)), (2, True, ('str', 4)), (3, True, vec(S('u32')))])
     # entries that hold an Optional (a present entry whose value is Nil is still a present entry)
     to = ('tab', 41, [(1, True, ('opt', S('u8'))), (2, True, ('opt', ('str', 1))), (3, True, S('u32')), (4, False, S('u8'))])
-    P += [t1, t2, t3, t4, t0, tw, to, st(t1, S('u16')), vec(t2)]
+    # integral arrays as entry values (BIN length = count * width), ids that need more than 32 bits
+    ta = ('tab', 42, [(1, True, arr(4, S('u32'))), (2, True, arr(3, S('i16'))), ((1 << 32) + 1, True, S('u16')), ((1 << 40) + 7, True, ('str', 1)), (7, True, S('u8'))])
+    P += [t1, t2, t3, t4, t0, tw, to, ta, st(t1, S('u16')), vec(t2)]
     # handles at every nesting position (C15): variant alternatives, optional members of sequence
     # elements, map values, arrays, pairs, Result values, table entries, nested tables
     hv = ('var', [h0, S('u8'), h1])
@@ -488,6 +496,13 @@ def core_pool():
     P += [t for t, _ in cx_family()]
     # finding K1: Optional/Result whose payload can itself start with NIL/ERR (not prefix-disjoint)
     P += [('opt', ('opt', S('u8'))), ('res', 1, 'i32', ('res', 2, 'u8', S('u8')))]
+    # feature interactions: a table inside a variant / optional / result / map value, wide strings in a logical buffer,
+    # enums and chars as map keys, optionals and results as container elements, bool and char sequences, nested maps
+    P += [('var', [t1, S('u8'), ('str', 2)]), ('opt', t1), ('res', 1, 'i32', t1), ('map', False, S('u8'), t1),
+          st(lbuf(3, 'u8', ('str', 2)), S('u8')), ('map', False, S('i16', 3), ('opt', vec(('str', 1)))), ('map', False, S('u8', 1), S('f64')),
+          arr(2, ('opt', S('u8'))), vec(('res', 2, 'u8', ('str', 1))), vec(S('u8', 1)), ('tup', 'pair', [S('bool'), S('u8', 1)]),
+          ('map', False, ('str', 1), ('map', False, S('u8'), vec(S('i32')))), ('tup', 'tuple', [('opt', ('str', 4)), ('var', [S('f64'), vec(S('i64'))])]),
+          vec(('var', [S('i8'), ('tup', 'pair', [S('u16'), ('str', 1)])]))]
     # structures declared from outside (NOP_EXTERNAL_STRUCTURE): members of every kind, nested, in containers and entries
     xst = lambda *ts: ('tup', 'xstruct', list(ts))
     x1 = xst(S('u8'), ('str', 1), ('opt', S('i64')))
@@ -544,6 +559,8 @@ def gen_value(t, rng, depth=0):
             n = rng.choice([0, 1, 2, 3, 7] if not small else [0, 1, 2])
             if is_integral(t[2]) and not small and rng.random() < 0.15:
                 n = rng.choice([127, 128, 129, 255, 256, 300])
+            elif t[2][0] == 's' and not small and rng.random() < 0.1:
+                n = rng.choice([127, 128, 129, 200])      # counts that leave the fixint class, non-integral scalars too
         elif c[0] == 'arr':
             n = c[2]
         else:
@@ -576,7 +593,7 @@ def gen_value(t, rng, depth=0):
         i = rng.randrange(len(t[1]))
         return '(alt %d %s)' % (i, gen_value(t[1][i], rng, depth + 1))
     if k == 'hnd':
-        return '(hnd %d)' % rng.choice([-1, 0, 3, 7, 1 << 40])
+        return '(hnd %d)' % rng.choice([-1, 0, 3, 7, 1 << 40, -5, -(1 << 40)])
     if k == 'tab':
         out = []
         for eid, act, et in t[2]:
